@@ -112,6 +112,10 @@ async def _run(loop, case, info):
             raw = s["raw"]
             if ev == "user":
                 name = ["a", "b", "zz", "a", "anonymous"][y % 5]
+                full = [u for u in users if u.maximum_connections is not None
+                        and len([z for z in live() if z is not s and z["user"] is u]) >= u.maximum_connections - (y // 16) % 2]
+                if full and (y // 5) % 3:
+                    name = full[y % len(full)].login or "anonymous"
                 u = lookup(name)
                 att = len([z for z in live() if z is not s and z["user"] is u])
                 over = u is not None and u.maximum_connections is not None and att >= u.maximum_connections
